@@ -18,6 +18,10 @@
       the relayed CONNECT rejection (`relayResponse`, `writtenRelay`).
   §4  the exchange state machine with one injected fault: `clientStream`.
   §5  `handleLoop`: the consecutive-error counter.
+  §6  `writeResponse`: the writer selection (CONNECT-OK literal / header-only writer / SSE flush writer /
+      chunk flush writer / plain) as a total function of (request method, status, header), which writers
+      read the body, and what `handle` makes of an accepted upstream reply (`relay`, incl. the `panicBody`
+      sentinel of `handleUpgradeResponse`).
 -/
 import FwdVerif.Model.Resp
 
@@ -34,11 +38,13 @@ open Req (bs hget goGet removeHopByHop natToDec lowerFields)
     wraps alerts as `&net.OpError{Op: "remote error" | "local error", Err: alert}`. -/
 inductive NetOp where
   | dial | read | write | remoteError | localError
+  | proxyconnect   -- `http.Transport` wraps every failure to reach the configured proxy (dial, TLS to an https proxy)
   deriving DecidableEq, Repr
 
 def NetOp.text : NetOp → String
   | .dial => "dial" | .read => "read" | .write => "write"
   | .remoteError => "remote error" | .localError => "local error"
+  | .proxyconnect => "proxyconnect"
 
 /-- Everything the handlers look at.  One Go error chain can satisfy several of the tests at once
     (a TLS alert arrives wrapped in a `*net.OpError`; an `ErrorStatus` may wrap anything), which is
@@ -141,6 +147,11 @@ def classifyShape (https : Bool) (e : ErrShape) : Verdict := classifyWith handle
 
 inductive ErrKind where
   | opError (op : NetOp) (timeout : Bool)  -- dial tcp …: connection refused / i/o timeout; read tcp …: connection reset by peer; …
+  /-- `*net.OpError`s nested: `&OpError{Op: outer, Err: &OpError{Op: inner₁, … Err: e}}` where `e` is a
+      time-out or not — e.g. `proxyconnect tcp: dial tcp …: i/o timeout`, what `http.Transport` returns when
+      the dial to the upstream proxy fails.  `errors.As` finds the outermost; `OpError.Timeout()` asks the
+      error it wraps, so the answer is the innermost error's. -/
+  | opChain (outer : NetOp) (inner : List NetOp) (timeout : Bool)
   | dns (timeout : Bool)                   -- &OpError{Op:"dial", Err:&DNSError{IsTimeout}}
   | connRefused                            -- &OpError{Op:"dial", Err: ECONNREFUSED}
   | connReset                              -- &OpError{Op:"read", Err: ECONNRESET}
@@ -165,6 +176,7 @@ inductive ErrKind where
 
 def shapeOf : ErrKind → ErrShape
   | .opError op t => { opError := some (op, t) }
+  | .opChain outer _ t => { opError := some (outer, t) }
   | .dns t => { opError := some (.dial, t) }
   | .connRefused => { opError := some (.dial, false) }
   | .connReset => { opError := some (.read, false) }
@@ -334,6 +346,7 @@ structure Exchange where
   id : Nat
   kind : ReqKind := .plain
   viaUpstream : Bool := false
+  upstreamTLS : Bool := false   -- the upstream proxy is an https:// one (TLS to the proxy itself)
   reqClose : Bool := false
   clientMinor : Nat := 1        -- the client speaks HTTP/1.<clientMinor>
   headLen : Nat := 0            -- bytes of the origin's reply head
@@ -379,6 +392,9 @@ inductive ConnectReply where
 inductive Fault where
   | none
   | dialRefused | dialTimeout
+  /-- the dialled party accepts the connection and resets it at once; `op` = where the reset surfaces
+      (scheduling: in the connect itself, in the first write, in the first read) -/
+  | dialReset (op : NetOp)
   | tls (f : TLSFault)
   | connectReply (r : ConnectReply)
   | headCut (k : Nat) (reset surfaces : Bool)       -- k < headLen bytes of the reply head, then close
@@ -392,6 +408,25 @@ def cutErr (k : Nat) (reset surfaces : Bool) : ErrKind :=
   else if reset && surfaces then .connReset else .malformedResponse
 
 def usesTLS (ex : Exchange) : Bool := ex.kind == .httpsGet || ex.kind == .mitm
+
+/-- the request goes out through `http.Transport` with a proxy configured: its failures to reach that
+    proxy come back wrapped in a `proxyconnect` `OpError` (a client CONNECT is dialled by `dialvia`,
+    which hands back the bare error) -/
+def viaTransportProxy (ex : Exchange) : Bool := ex.viaUpstream && ex.kind != .connect
+
+/-- a dial error, as the path of the exchange reports it -/
+def dialErr (ex : Exchange) (timeout : Bool) : ErrKind :=
+  if viaTransportProxy ex then .opChain .proxyconnect [.dial] timeout
+  else if timeout then .opError .dial true else .connRefused
+
+/-- the dialled party resets the fresh connection: the operation `op` fails with ECONNRESET — in the TLS
+    handshake with an https upstream proxy (wrapped by the transport), otherwise in the connect or in the
+    first exchange on the connection.  A direct client CONNECT has been answered `200` by then (unless the
+    connect itself reports the reset): the tunnel just ends. -/
+def resetErr (ex : Exchange) (op : NetOp) : Option ErrKind :=
+  if ex.kind == .connect && !ex.viaUpstream && op != .dial then none
+  else if viaTransportProxy ex && (ex.upstreamTLS || op == .dial) then some (.opChain .proxyconnect [op] false)
+  else some (.opError op false)
 
 /-- a CONNECT to the upstream proxy precedes the exchange -/
 def usesConnect (ex : Exchange) : Bool := ex.viaUpstream && ex.kind != .plain
@@ -455,8 +490,9 @@ def okObs (ex : Exchange) : ClientObs :=
 def faultErr (f : Fault) (ex : Exchange) : Option ErrKind :=
   match f with
   | .none => none
-  | .dialRefused => some .connRefused
-  | .dialTimeout => some (.opError .dial true)
+  | .dialRefused => some (dialErr ex false)
+  | .dialTimeout => some (dialErr ex true)
+  | .dialReset op => resetErr ex op
   | .tls t => if usesTLS ex then some t.errKind else none
   | .connectReply r =>
     if usesConnect ex then
@@ -654,6 +690,141 @@ def h2Result : H2Err → HandleResult
   | .tlsFailed => .closing
   | .eof => .closing
   | .badPreface => .other
+
+/-! ## §6 `writeResponse`: which writer, and whether it touches the body
+
+  `proxyConn.writeResponse` ends in a switch that picks one of five writers (proxy_conn.go; the
+  hijacked HTTP/1 tunnel of handler mode has the same order):
+
+      case req.Method == CONNECT && res.StatusCode/100 == 2:  writeConnectOKResponse   (a literal)
+      case isHeaderOnlySpec(res):                             writeHeaderOnlyResponse  (status line + map)
+      default: switch {
+        case isTextEventStream(res):   res.Write(patternFlushWriter "\n\n")
+        case shouldChunk(res):         res.Write(patternFlushWriter "\r\n")
+        default:                       res.Write(p.brw) }
+
+  `http.Response.Write` looks at the body (`ContentLength == 0 && Body != nil` ⇒ it reads one byte to
+  find out; otherwise it copies it); the first two writers never touch it.  `handleUpgradeResponse`
+  relies on that: it replaces the body of a 101 response by `panicBody`, a reader that panics on
+  `Read`, before calling `tunnel` → `writeResponse`.  The writer is chosen from fields an upstream
+  controls (status, `Content-Type`, framing), so the order of the cases is what keeps an upstream from
+  reaching the sentinel: `c12_header_only_body_never_read`, `c12_upstream_reply_never_panics`. -/
+
+inductive Writer where
+  | connectOK     -- `writeConnectOKResponse`: the literal `HTTP/1.1 200 OK CRLF CRLF`
+  | headerOnly    -- `writeHeaderOnlyResponse`: status line, the header map, the blank line
+  | sseFlush      -- `res.Write` into the pattern flush writer, pattern LF LF
+  | chunkFlush    -- `res.Write` into the pattern flush writer, pattern CR LF
+  | plain         -- `res.Write` into the buffered writer
+  deriving DecidableEq, Repr
+
+/-- does the writer call `Read` on `res.Body`? (`http.Response.Write` does: it probes a body of
+    declared length 0 and copies any other) -/
+def Writer.readsBody : Writer → Bool
+  | .connectOK => false
+  | .headerOnly => false
+  | .sseFlush => true
+  | .chunkFlush => true
+  | .plain => true
+
+/-- what `writeResponse` looks at besides the request method, the status and the header map -/
+structure ResFacts where
+  protoMajor : Nat := 1
+  protoMinor : Nat := 1
+  contentLength : Int := 0        -- `res.ContentLength` (-1 = unknown)
+  /-- `mime.ParseMediaType` returns an empty media type although the part before the first `;` is fine:
+      two parameters of the same name with different values (the parameter grammar itself is not modelled) -/
+  ctParamsConflict : Bool := false
+  deriving DecidableEq, Repr
+
+def methodConnect : Bytes := bs "CONNECT"
+def sseType : Bytes := bs "text/event-stream"
+
+/-- the part of a media type before the first `;`, lower-cased and trimmed (`mime.ParseMediaType`) -/
+def mediaBase (v : Bytes) : Bytes := Req.trimSpace (lower (v.takeWhile (· != 59)))
+
+/-- `isTextEventStream`: `mime.ParseMediaType(res.Header.Get("Content-Type"))` has the base type
+    `text/event-stream` — whatever its case, whatever parameters follow.  (A malformed parameter list
+    still yields the base type; only conflicting duplicates void it.) -/
+def isTextEventStream (h : HMap) (r : ResFacts) : Bool :=
+  mediaBase (goGet h (bs "Content-Type")) == sseType && !r.ctParamsConflict
+
+/-- `isHeaderOnlySpec` = `Resp.headerOnly`: HEAD, 1xx, 204, 304 -/
+def isHeaderOnlySpec (method : Bytes) (status : Nat) : Bool := Resp.headerOnly method status
+
+/-- `shouldChunk` -/
+def shouldChunk (method : Bytes) (status : Nat) (r : ResFacts) : Bool :=
+  r.protoMajor == 1 && r.protoMinor == 1 && r.contentLength == -1 && !isHeaderOnlySpec method status
+
+/-- the writer selection of `writeResponse`, in code order: total in (method, status, header, facts) -/
+def selectWriter (method : Bytes) (status : Nat) (h : HMap) (r : ResFacts) : Writer :=
+  if method == methodConnect && status / 100 == 2 then .connectOK
+  else if isHeaderOnlySpec method status then .headerOnly
+  else if isTextEventStream h r then .sseFlush
+  else if shouldChunk method status r then .chunkFlush
+  else .plain
+
+/-- The same five cases flattened into one switch with the event-stream case ahead of the
+    header-only case (the edit of seed c12-1): every case still "looks right" alone. -/
+def selectWriterSSEFirst (method : Bytes) (status : Nat) (h : HMap) (r : ResFacts) : Writer :=
+  if method == methodConnect && status / 100 == 2 then .connectOK
+  else if isTextEventStream h r then .sseFlush
+  else if isHeaderOnlySpec method status then .headerOnly
+  else if shouldChunk method status r then .chunkFlush
+  else .plain
+
+abbrev Selector := Bytes → Nat → HMap → ResFacts → Writer
+
+/-- what `res.Body` is when `writeResponse` runs -/
+inductive BodyAtWrite where
+  | upstream        -- the transport's body reader (bytes of the upstream connection)
+  | noBody          -- `http.NoBody`
+  | panicSentinel   -- `panicBody`: `Read` panics
+  deriving DecidableEq, Repr
+
+/-- what becomes of an upstream reply that the transport accepted -/
+inductive Relayed where
+  | wrote (w : Writer) (tunnelFollows : Bool)
+  | closedWithoutResponse     -- `errClose` before a byte was written
+  | panicked                  -- `panic("unexpected read")` in the connection's goroutine: the process dies
+  deriving DecidableEq, Repr
+
+/-- `http.Transport`: the body of a 101 reply is the connection itself (writable) exactly when the
+    reply is a protocol switch: `Upgrade` non-empty and `Connection` has the token `upgrade` -/
+def protocolSwitch (status : Nat) (h : HMap) : Bool :=
+  status == 101 && !(Req.upgradeType h).isEmpty
+
+/-- `roundTrip` + `handle`: the body with which `writeResponse` is entered (`none`: it is not entered).
+    * a header-only response other than 101 has its body replaced by `NoBody` (`roundTrip`);
+    * 101: `handleUpgradeResponse` — a body that is not writable ends the connection
+      (`switching protocols response with non-writable body`), a writable one is replaced by `panicBody`. -/
+def bodyAtWrite (method : Bytes) (status : Nat) (h : HMap) : Option BodyAtWrite :=
+  if status == 101 then
+    if protocolSwitch status h then some .panicSentinel else none
+  else if isHeaderOnlySpec method status then some .noBody
+  else some .upstream
+
+/-- `handle` from the accepted reply on, with the writer selection `sel` -/
+def relayWith (sel : Selector) (method : Bytes) (status : Nat) (h : HMap) (r : ResFacts) : Relayed :=
+  match bodyAtWrite method status h with
+  | none => .closedWithoutResponse
+  | some b =>
+    let w := sel method status h r
+    if w.readsBody && b == .panicSentinel then .panicked
+    else .wrote w (status == 101)
+
+/-- the code as it is -/
+def relay (method : Bytes) (status : Nat) (h : HMap) (r : ResFacts) : Relayed :=
+  relayWith selectWriter method status h r
+
+/-- `handleConnectRequest` from the upstream proxy's reply to the CONNECT on (`dialvia` read it with
+    `http.ReadResponse`: the body is an ordinary reader, never the sentinel): 2xx ⇒ the literal and a
+    tunnel, anything else is written as the answer to the CONNECT -/
+def relayConnectWith (sel : Selector) (status : Nat) (h : HMap) (r : ResFacts) : Relayed :=
+  .wrote (sel methodConnect status h r) (status / 100 == 2)
+
+def relayConnect (status : Nat) (h : HMap) (r : ResFacts) : Relayed :=
+  relayConnectWith selectWriter status h r
 
 end C12
 end FwdVerif
